@@ -238,17 +238,22 @@ def check_c16(tier, seed, verdict, workdir):
     n_audit = 100 if tier == "quick" else 1500
     n_rand = 30 if tier == "quick" else 300
     n_ph = 2000 if tier == "quick" else 60000
+    n_ax = 40 if tier == "quick" else 600
+    n_fo = 6000 if tier == "quick" else 200000
 
     def one(i):
         rc1, aud = drive_lines(["agent-audit", "--seed", str(seed * 100 + i), "--n", str(n_audit)], workdir, f"a{i}")
         rc2, rand_lines = drive_lines(["sim-gen", "--seed", str(seed * 100 + 70 + i), "--n", str(n_rand), "--mix", "0"], workdir, f"r{i}")
         rc3, ph_lines = drive_lines(["price-helpers", "--seed", str(seed * 100 + i), "--n", str(n_ph)], workdir, f"h{i}")
-        stream = "\n".join([l for l in rand_lines if l[:2] in ("H ", "O ", "I ")] + [l for l in ph_lines if l.startswith("PH ")])
+        rc4, ax_lines = drive_lines(["agent-exact", "--seed", str(seed * 100 + i), "--n", str(n_ax)], workdir, f"x{i}")
+        rc5, fo_lines = drive_lines(["f64-ops", "--seed", str(seed * 100 + i), "--n", str(n_fo)], workdir, f"f{i}")
+        stream = "\n".join([l for l in rand_lines if l[:2] in ("H ", "O ", "I ")] + [l for l in ph_lines if l.startswith("PH ")]
+                           + [l for l in ax_lines if l[:2] in ("H ", "O ", "I ")] + [l for l in fo_lines if l.startswith("FO ")])
         q = subprocess.run([C.DRIVER], input=stream + "\n", stdout=subprocess.PIPE, stderr=subprocess.PIPE, text=True)
         finds, stats, done = book.parse_driver(q.stdout, f"sim{i}")
         if q.returncode != 0 or not done:
             rc3 = 1
-        return rc1 or rc2 or rc3, [l for l in aud if l.startswith("AA ")], finds, stats, done
+        return rc1 or rc2 or rc3 or rc4 or rc5, [l for l in aud if l.startswith("AA ")], finds, stats, done
 
     res = shard_map(one, shards)
     bad, k_found, samples = [], [], []
@@ -266,7 +271,8 @@ def check_c16(tier, seed, verdict, workdir):
             stats_all[k] = stats_all.get(k, 0) + v
         for f in finds:
             if f.kind == "A" and f.audit == "C16":
-                bad.append(("price_helpers:" + ",".join(sorted(f.fields)), f.op, f.hid))
+                where = "agent_update:" if f.hid.startswith("ax") else "price_helpers:"
+                bad.append((where + ",".join(sorted(f.fields)), f.op, f.hid))
         for l in aud:
             t = l.split(" ")
             n_cfg += 1
@@ -286,14 +292,14 @@ def check_c16(tier, seed, verdict, workdir):
         if key in seen or len(seen) >= 3:
             continue
         seen.add(key)
-        sub = "price-helpers" if hid.startswith("ph-") else "agent-audit"
+        sub = "price-helpers" if hid.startswith("ph-") else ("agent-exact" if hid.startswith("ax") else "agent-audit")
         verdict.violation({"kind": "impl-violates-property", "obligation": "A(C16): " + what, "config": cfg, "run": hid,
                            "replay_cmd": f".build/harness/debug/drive {sub} --seed {hid.split('-')[1]} --n {int(hid.split('-')[2]) + 1} | tail -1"},
                           f"implementation violates C16: {what} for `{cfg}`")
     failed = finish_proofs(prop, verdict, pr, [], bad)
     if k_found and not bad:
         verdict.violation({"kind": "model-impl-disagreement", "obligation": f"K(C16): {k_found[0]}"},
-                          f"correspondence K(C16) broke: the Lean model of RandomAgents no longer predicts the real run ({k_found[0]}); "
+                          f"correspondence K(C16) broke: the Lean model of the agents / of f64 arithmetic no longer predicts the real run ({k_found[0]}); "
                           "the instruction audit held on every explored run", nfi=True)
     cov = base_cov(prop, tier, pr, modules)
     cov.update({
@@ -306,17 +312,25 @@ def check_c16(tier, seed, verdict, workdir):
                 "also compared bit-for-bit with the Lean model; the real f64 price helpers (round_price_down/up, place_buy/sell_limit_order and "
                 "their multi-asset twins, driven with a fixed-value distribution) are compared with the exact-rational model on dyadic inputs "
                 "(mids at the bottom, in the middle and at the top of the price range, samples of either sign up to 2^47, +inf) and the grid / "
-                "side-of-mid clauses are evaluated on their output; non-trivial = configurations with both orders and cancellations",
+                "side-of-mid clauses are evaluated on their output; float-exact agent histories (`agent-exact`): the real NoiseAgent / MomentumAgent "
+                "(single- and multi-asset; p in {0, 1/8, 1/3, 1/2, 9/10, 1, 3/2}; sigma up to 10; negative demand / scale / mu; step size 1..1000; trading "
+                "toggles with crossed books) update a real environment the harness keeps moving, and the Lean model of the whole update "
+                "(Model/FloatAgents.lean over the f64 model, exact generator, LogNormal::sample and tanh as recorded tables) must predict the generator "
+                "state after the update, every order created and - through the complete observation after the following step - every instruction "
+                "queued; the C16 clauses are evaluated on the implementation's observations around every update; the f64 model itself is compared "
+                "with the hardware on seeded operand pairs (`f64-ops`); non-trivial = configurations with both orders and cancellations",
         "samples": samples,
         "agent_kinds": kinds, "orders_audited": n_orders, "cancellations_audited": n_cancels,
         "runs_compared_with_lean_model": totals.get("histories", 0),
+        "float_exact_agent_updates": {k: v for k, v in sorted(stats_all.items()) if k.startswith("ax:")},
+        "f64_operations_compared_with_hardware": {k: v for k, v in sorted(stats_all.items()) if k.startswith("fo:")},
         "price_helper_inputs_compared": {k: v for k, v in sorted(stats_all.items()) if k.startswith("ph:")},
         "model_vs_impl_disagreements": len(k_found), "disagreements_checked": len(k_found),
         "impl_vs_property_failures": len(bad),
     })
-    return cov, ["PARTIAL on floats: the quoted prices are proved valid in exact arithmetic for every sample, and the f64 helpers agree with "
-                 "that model on every dyadic input explored; for other samples (LogNormal draws) f64 rounding is audited on real runs, not proved; "
-                 "theorems cover RandomAgents exactly and the Bernoulli corners",
+    return cov, ["floats: the quoted prices are proved valid for every sample both in exact arithmetic and in correctly rounded binary64 "
+                 "(Lemmas/F64Round, F64Prices: rnd monotone, exact on representable values, relative error 2^-53; the rounded quotient mid/tick never "
+                 "crosses an integer); LogNormal::sample and libm tanh are parameters of the agent models (any function), recorded as tables for the tie",
                  "cancellations of non-active orders are invisible through the public API (a no-op in the book) and are not audited for noise/momentum agents",
                  "mid-prices are assumed far below 2^32 (a sell clamped to the top of the price range can land below a mid that is itself within one tick of Price::MAX)"]
 
@@ -329,16 +343,22 @@ def check_c17(tier, seed, verdict, workdir):
     pr = C.prove(prop, modules, clean=False)
     shards = 16
     n = 120 if tier == "quick" else 1500
+    n_ax = 60 if tier == "quick" else 900
 
     def one(i):
         rc, lines = drive_lines(["momentum", "--seed", str(seed * 100 + i), "--n", str(n)], workdir, f"m{i}")
         mm = [l for l in lines if l.startswith("MM ")]
-        q = subprocess.run([C.DRIVER], input="\n".join(mm) + "\n", stdout=subprocess.PIPE, stderr=subprocess.PIPE, text=True)
+        rc2, ax_lines = drive_lines(["agent-exact", "--seed", str(seed * 100 + 50 + i), "--n", str(n_ax), "--kind", "M"], workdir, f"x{i}")
+        ax = [l for l in ax_lines if l[:2] in ("H ", "O ", "I ")]
+        q = subprocess.run([C.DRIVER], input="\n".join(mm + ax) + "\n", stdout=subprocess.PIPE, stderr=subprocess.PIPE, text=True)
         finds, stats, done = book.parse_driver(q.stdout, f"mom{i}")
-        return rc, mm, finds, stats, done
+        if q.returncode != 0 or not done:
+            rc2 = 1
+        return rc or rc2, mm, finds, stats, done
 
     res = shard_map(one, shards)
     bad, samples, stats_all, totals = [], [], {}, {}
+    k_found = []
     for rc, mm, finds, stats, done in res:
         if rc:
             bad.append(("harness crashed", ""))
@@ -350,6 +370,13 @@ def check_c17(tier, seed, verdict, workdir):
         if not samples:
             samples = [l[:300] for l in mm[:2]]
         for f in finds:
+            if f.hid.startswith("ax"):
+                # float-exact momentum histories: C17's own clauses are violations, a model disagreement is a broken correspondence
+                if f.kind == "A" and f.audit == "C17":
+                    bad.append((repr(f), f"drive agent-exact --kind M --seed {f.hid.split('-')[1]} --n {int(f.hid.split('-')[2]) + 1}"))
+                elif f.kind == "K":
+                    k_found.append(repr(f))
+                continue
             bad.append((repr(f), by.get(f.hid, "")))
     seen = set()
     for what, line in bad:
@@ -361,14 +388,24 @@ def check_c17(tier, seed, verdict, workdir):
                            "replay_cmd": ".build/harness/debug/drive momentum --seed <s> --n <k> (ids in the line are mom-<s>-<k>)"},
                           f"implementation violates C17: {what}")
     finish_proofs(prop, verdict, pr, [], bad)
+    if k_found and not bad:
+        verdict.violation({"kind": "model-impl-disagreement", "obligation": f"K(C17): {k_found[0]}"},
+                          f"correspondence K(C17) broke: the Lean model of the momentum agent no longer predicts the real update ({k_found[0]}); "
+                          "the direction / probability clauses held on every explored update", nfi=True)
     cov = base_cov(prop, tier, pr, modules)
     cov.update({
+        "model_vs_impl_disagreements": len(k_found),
         "evaluations": totals.get("histories", 0) * 2,
         "distinct_nontrivial": totals.get("nontrivial_distinct", 0),
         "rule": "generated momentum configurations (rising/falling/mixed/flat harness-quoted mid paths, decay in {1,1/2,1/4,3/4}, order ratio 0/1 (and 1/2 at saturated demand 4n), mids around 500 ticks or around 10^8, "
                 "1-6 traders, single and multi-asset; two thirds at saturated demand) run on the real agent together with the path mirrored about a "
                 "fixed level; the documented rule is evaluated in exact rational arithmetic on the mids the agent observed (direction always, exact "
-                "counts when saturated) and the mirrored run must show the mirrored flow; non-trivial = runs in which the agent submitted orders",
+                "counts when saturated) and the mirrored run must show the mirrored flow; float-exact histories (`agent-exact --kind M`): the real "
+                "MomentumAgent / MomentumMarketAgent on a moving market (also crossed, trading off) with arbitrary non-saturated parameters (decay 1/3, 7/10, "
+                "negative demand or scale, ratio 1/3, ...): the Lean model of the whole update in f64 arithmetic predicts the signal M, both "
+                "probabilities, every uniform draw, every order and the generator state exactly; on the implementation's observation every order's "
+                "side is the sign of M, probability 0 never acts and probability >= 1 acts once per trader; "
+                "non-trivial = runs in which the agent submitted orders",
         "samples": samples, "op_and_branch_distribution": stats_all,
         "impl_vs_property_failures": len(bad), "disagreements_checked": 0,
     })
